@@ -64,7 +64,7 @@ def check(case):
     res = Result()
     desc, ff, opts = case["desc"], case["ff"], case["opts"]
     del c04.CALLS[:]
-    s, r = e2e.run_case(desc, ff, opts)
+    s, r = e2e.run_case(desc, ff, opts + e2e.apply_titration(desc, case.get("tit"), opts))
     ncalls = len(c04.CALLS)
     mode = " ".join(o for o in opts if not o.startswith("--neutral")) or "default"
     res.label(f"mode={mode}", "wild" if case.get("wild") else "wells")
